@@ -131,20 +131,8 @@ def run(repo: Repo, rep: Report):
         rep.fail("R-ORDER.must-transform", "svg_pathops.transform", "sk_path.transform(*affine)", "the six affine components are no longer passed to Skia in a b c d e f order", repo["svg_pathops"], pt)
 
     # ---- document order
-    re_fn = svg.func("_replace_el")
-    t = unparse(re_fn)
-    if "for child_idx, child in enumerate(replacements)" in t and "parent.insert(idx + child_idx, child)" in t and "idx = parent.index(el)" in t:
-        rep.ok("R-SITE.document-order", "svg._replace_el: replacement k inserted at idx + k")
-    else:
-        rep.fail("R-SITE.document-order", "svg._replace_el", "parent.insert(idx + child_idx, child)", "replacements are no longer inserted in order at the position of the replaced element", svg, re_fn)
-    sw = svg.func("SVG._swap_elements")
-    t = unparse(sw)
-    if "for new_el in reversed(new_els)" in t and "old_el.addnext(new_el)" in t:
-        rep.ok("R-SITE.document-order", "svg.SVG._swap_elements: addnext over reversed(new_els) keeps the order")
-    elif "for new_el in new_els" in t and "old_el.addprevious(new_el)" in t:
-        rep.ok("R-SITE.document-order", "svg.SVG._swap_elements: addprevious over new_els keeps the order")
-    else:
-        rep.fail("R-SITE.document-order", "svg.SVG._swap_elements", "for new_el in reversed(new_els): old_el.addnext(new_el)", "swapped-in elements are inserted in reverse document order", svg, sw)
+    from sa.rules import groups
+    groups.check_replace_and_swap(repo, rep, "R-SITE.document-order")
     sk = svg.func("SVG._stroke")
     rets = [unparse(r.value) for r in walk_no_nested(sk) if isinstance(r, ast.Return) and r.value is not None]
     if "(shape, stroke)" in rets and all(r in ("(shape, stroke)", "(stroke,)") for r in rets):
